@@ -322,14 +322,14 @@ func rewriteGroups(s string) (string, error) {
 				}
 				out.Reset()
 				out.WriteString(cur[:b])
-				out.WriteString("(((" + strings.TrimSpace(args[0]) + ")))")
+				out.WriteString("/*@old*/(" + strings.TrimSpace(args[0]) + ")")
 			case ch == '(' && ident == "atHead":
 				if len(args) != 1 {
 					return "", fmt.Errorf("atHead takes one argument: %q", s)
 				}
 				out.Reset()
 				out.WriteString(cur[:b])
-				out.WriteString("((((" + strings.TrimSpace(args[0]) + "))))")
+				out.WriteString("/*@head*/(" + strings.TrimSpace(args[0]) + ")")
 			case ch == '(' && (ident == "forall" || ident == "exists"):
 				if len(args) != 4 {
 					return "", fmt.Errorf("%s takes (var, lo, hi, body): %q", ident, s)
